@@ -452,6 +452,58 @@ func init() {
 			add("hevc", []string{"ParseSPSNALUnit", "ParsePPSNALUnit", "ParseSliceHeader", "ParseSEINalu"}, parseN)
 			add("sei", []string{"ExtractSEIData", "avc1", "avc1hrd", "avc4", "avc5", "hevc4", "hevc5", "hevc136", "hevc137", "hevc144", "general", "hevc1", "hevc1/0", "hevc1/4", "hevc1/23", "hevc1/big", "cea608"}, tierN(tier, 8, 12))
 			add("sei", []string{"avc5", "hevc5", "hevc137"}, 26)
+			// the bit-level parsers once more with the search order reversed: long Exp-Golomb prefixes
+			// (huge counts) first
+			nf := len(r)
+			add("avc", []string{"ParseSPSNALUnit", "ParsePPSNALUnit", "ParseSliceHeader"}, parseN+2)
+			add("hevc", []string{"ParseSPSNALUnit", "ParsePPSNALUnit", "ParseSliceHeader"}, parseN+2)
+			for _, c := range r[nf:] {
+				c.FlipOrder = true
+				c.Params = append(c.Params, "flip")
+			}
+			// huge Exp-Golomb codes: the C15 stream generators with one element per path replaced by a
+			// code with hm leading zero bits and the stream cut after it
+			classIdx := map[string]int{"VerifC15SPS": 1, "VerifC15PPSSlice": 1, "VerifC15SPSExt": 1, "VerifC15PPSExt": 1, "VerifC15PBSlice": 2,
+				"VerifC15HSPS": 2, "VerifC15HSlice": 5, "VerifC15HSlicePB": 5}
+			// hm = leading zeros + 100 * flag mode (1: all flags set, 2: all clear, 3: alternating, 0: symbolic).
+			// The generator shapes are those of C15's quick tier; quick takes one hm per shape in
+			// rotation, thorough six (zeros 7..40, flag modes in rotation).
+			k := 0
+			for _, c15 := range propDefs["C15"].Instances("quick", L) {
+				ci, ok := classIdx[c15.Name]
+				if !ok || (c15.Params[ci] != "0" && c15.Params[ci] != "1") {
+					continue
+				}
+				k++
+				hms := []int{[]int{116, 231, 316, 122, 216, 331}[k%6]}
+				if tier == "thorough" {
+					hms = nil
+					for j, z := range []int{7, 16, 22, 31, 32, 40} {
+						hms = append(hms, 100*(1+(k+j)%3)+z)
+					}
+				}
+				for _, hm := range hms {
+					c := *c15
+					c.Name = "VerifC16Huge"
+					c.Params = []string{itoa(hm), c15.Name}
+					for _, a := range c15.Params {
+						switch a {
+						case "true":
+							a = "1"
+						case "false":
+							a = "0"
+						}
+						c.Params = append(c.Params, a)
+					}
+					for len(c.Params) < 10 {
+						c.Params = append(c.Params, "0")
+					}
+					c.StepBudget, c.StepsPerByte, c.StepIsViol = 8000000, 0, true
+					c.AllocBudget, c.AllocPerByte, c.AllocIsViol = 1<<18, 0, true
+					c.MaxWallS = tierW(tier, 15, 40)
+					r = append(r, &c)
+				}
+			}
 			add("aac", []string{"DecodeADTSHeader", "DecodeAudioSpecificConfig"}, tierN(tier, 10, 12))
 			add("av1", []string{"DecodeAV1CodecConfRec"}, tierN(tier, 12, 20))
 			return r
